@@ -1,0 +1,13 @@
+//go:build verif
+
+package reorgdetector
+
+import "database/sql"
+
+// This file is only compiled with the `verif` build tag. It adds an accessor used by the
+// runtime-verification harness (/verif) and does not change any existing behaviour.
+
+// VerifDB returns the database handle (the harness closes it when it abandons an incarnation)
+func (rd *ReorgDetector) VerifDB() *sql.DB {
+	return rd.db
+}
